@@ -848,3 +848,66 @@ Section BootFormulas.
     rewrite (Qeqb_comp _ 1 0 0 D (Qeq_refl 0)). simpl. rewrite H. field.
   Qed.
 End BootFormulas.
+
+(* ---------- shape of the result of the dispatcher ---------- *)
+Definition alpha_shape (al : alpha_arg) : list nat := match al with AScalar _ => [] | AArray s _ => s end.
+Definition alpha_consistent (al : alpha_arg) : Prop :=
+  match al with AScalar _ => True | AArray s d => length d = prod_shape s end.
+Definition hats_consistent (m : method) (yshape : list nat) (hats : option (list rate)) : Prop :=
+  match m, hats with
+  | MQuantile, _ => True
+  | _, Some hs => length hs = prod_shape yshape
+  | _, None => True
+  end.
+
+Lemma bootstrap_ci_shape Phi PhiInv pow15 yshape rows hats al m sh data :
+  alpha_consistent al -> hats_consistent m yshape hats ->
+  bootstrap_ci Phi PhiInv pow15 yshape rows hats al m = Ok (sh, data) ->
+  sh = yshape ++ alpha_shape al ++ [2%nat] /\ length data = prod_shape sh.
+Proof.
+  intros Ha Hh. unfold bootstrap_ci.
+  assert (Q : forall s d, length d = prod_shape s ->
+              bootstrap_ci_quantile yshape rows s d = Ok (sh, data) ->
+              sh = yshape ++ s ++ [2%nat] /\ length data = prod_shape sh).
+  { intros s d. apply bootstrap_ci_quantile_shape. }
+  assert (B : forall mm a, mm <> MQuantile -> hats_consistent mm yshape hats ->
+              bootstrap_ci_bcx Phi PhiInv pow15 mm yshape rows hats a = Ok (sh, data) ->
+              sh = yshape ++ [] ++ [2%nat] /\ length data = prod_shape sh).
+  { intros mm a Hm Hc H. destruct hats as [hs|]; [|discriminate].
+    assert (Hl : length hs = prod_shape yshape) by (destruct mm; [congruence|exact Hc|exact Hc]).
+    destruct (bootstrap_ci_bcx_ok _ _ _ _ _ _ _ _ _ _ Hm H) as (-> & cis & -> & E). split; [reflexivity|].
+    assert (Lcis : length cis = prod_shape yshape).
+    { rewrite <- (map_length (@Ok (rate * rate)) cis), <- E, map_length, combine_length, columns_length, Hl. apply Nat.min_id. }
+    unfold pairs_flat. rewrite (length_flat_map_const _ 2) by reflexivity.
+    simpl app. rewrite prod_shape_app, Lcis. simpl. lia. }
+  destruct m, al as [a|s d]; simpl alpha_shape; try discriminate.
+  - apply Q. reflexivity.
+  - apply Q. exact Ha.
+  - apply B; [discriminate|exact Hh].
+  - apply B; [discriminate|exact Hh].
+Qed.
+
+(* ---------- a concrete instance of the oracle hypotheses (non-vacuity) ---------- *)
+Definition Phi0 (x : Q) : Q := Qmax2 0 (Qmin2 1 ((x + 4) * (1#8))).
+Definition PhiInv0 (p : Q) : Q := 8 * p - 4.
+Definition pow0 (x : Q) : Q := 0.
+
+Lemma Phi0_range x : 0 <= Phi0 x /\ Phi0 x <= 1.
+Proof.
+  unfold Phi0, Qmin2. destruct (Qleb 1 ((x + 4) * (1#8))) eqn:E1; unfold Qmax2;
+  repeat match goal with |- context [Qleb ?a ?b] => let E := fresh "E" in destruct (Qleb a b) eqn:E end; qb; lra.
+Qed.
+Lemma Phi0_mono x y : x <= y -> Phi0 x <= Phi0 y.
+Proof.
+  intro H. unfold Phi0, Qmin2.
+  destruct (Qleb 1 ((x + 4) * (1#8))) eqn:E1, (Qleb 1 ((y + 4) * (1#8))) eqn:E2; unfold Qmax2;
+  repeat match goal with |- context [Qleb ?a ?b] => let E := fresh "E" in destruct (Qleb a b) eqn:E end; qb; lra.
+Qed.
+Lemma Phi0_comp x y : x == y -> Phi0 x == Phi0 y.
+Proof. intro H. apply Qle_antisym; apply Phi0_mono; lra. Qed.
+Lemma PhiInv0_mono p p' : 0 < p -> p <= p' -> p' < 1 -> PhiInv0 p <= PhiInv0 p'.
+Proof. unfold PhiInv0. intros. lra. Qed.
+Lemma pow0_comp x y : x == y -> pow0 x == pow0 y.
+Proof. reflexivity. Qed.
+Lemma pow0_homog c x : 0 < c -> pow0 (c * c * x) == c * c * c * pow0 x.
+Proof. intros _. unfold pow0. ring. Qed.
